@@ -201,7 +201,7 @@ def to_units(s):
 
 # ---------------------------------------------------------------------------------------------------------
 
-def generate(seed, tier):
+def _generate(seed, tier):
     r = rng(seed, FAMILY)
     thorough = tier != "quick"
     nmax = 8 if thorough else 6
@@ -243,6 +243,20 @@ def generate(seed, tier):
         for mode in "dkh":
             s = [r.choice((97, 97, 97, 97, CR, LF)) for _ in range(n)]
             yield req(mode, s, c)
+    # 7. the scan buffer's own bookkeeping (mode o): offsets after every refill, with consumers that keep everything (doubling),
+    #    part (compaction by memmove) or nothing (reset) of what is buffered
+    for _ in range(400 if thorough else 60):
+        n = r.choice([5, 30, 300, 5000])
+        s = [r.choice((97, 98, 99, CR, LF)) for _ in range(n)]
+        yield req("o%d%d" % (r.randint(0, 8), r.randint(0, 9)), s, rand_cuts(r, s))
+    sizes = [140000, 270000, 540000] + ([132000, 200000, 262500, 300000, 400000, 1060000] if thorough else [])
+    for n in sizes:
+        pols = ((0, "*4096"), (r.randint(1, 3), "*4095"), (r.randint(4, 7), "-"), (8, "*4097"), (0, "-"), (r.randint(1, 7), "*%d" % r.choice([1000, 2050, 4096, 70000])))
+        for a, c in (pols if thorough else (pols[0], pols[1], pols[2], pols[5])):
+            s = []
+            while len(s) < n:
+                s += [r.choice((97, 98, 99, 0xD83D, 0xDE00)) for _ in range(r.randint(0, 60))] + r.choice(([CR, LF], [CR], [LF]))
+            yield req("o%d%d" % (a, r.randint(0, 9)), s[:n], c)
     for n, c in ([(9000, "*4095"), (9000, "*4096"), (9000, "*4097")]):
         s = []
         while len(s) < n:
@@ -252,6 +266,20 @@ def generate(seed, tier):
         s[k - 1:k + 1] = [CR, LF]
         yield req("d", s, c)
         yield req("p", s, c)
+
+
+def generate(seed, tier):
+    """the few very long requests are spread over the stream, so that the parallel workers of check.py share them"""
+    small, big = [], []
+    for q in _generate(seed, tier):
+        (big if len(q) > 200000 else small).append(q)
+    step = max(1, len(small) // (len(big) + 1))
+    for i, q in enumerate(small):
+        yield q
+        if big and (i + 1) % step == 0:
+            yield big.pop()
+    for q in big:
+        yield q
 
 
 def _kv(obs):
@@ -268,6 +296,9 @@ def agree(impl, model, req_=None):
     mode = t[1] if len(t) > 1 else "?"
     if not impl.startswith("fl "):
         return impl == model
+    if mode.startswith("o"):
+        a, b = _kv(impl), _kv(model)
+        return all(a.get(k) == b.get(k) for k in ("recs", "n", "eof"))
     if mode in "dkh":
         return " ".join(impl.split(" ")[:3]) == model
     a, b = _kv(impl), _kv(model)
@@ -280,11 +311,55 @@ def agree(impl, model, req_=None):
     return impl == model
 
 
+CK = 1000003
+
+
+def oracle_offsets(a, bv, doc, obs):
+    """mode o, on the implementation's records only: after every refill 0 <= text <= tvalue <= next <= limit <= size; the token text
+    [text, next) is the slice of normalizeEOL(document) the consumer has kept (checksum), tvalue - text is what the consumer set;
+    at the end of the input everything has been delivered"""
+    norm = normalize_eol(doc)
+    p0, p1 = [0], [0]
+    for i, u in enumerate(norm):
+        p0.append((p0[-1] + u) % CK)
+        p1.append((p1[-1] + (i + 1) * u) % CK)
+
+    def ck(s, e):        # sum over i in [s, e) of (i - s + 1) * norm[i]
+        return ((p1[e] - p1[s]) - s * (p0[e] - p0[s])) % CK
+    recs = [] if obs.get("recs", "-") == "-" else [tuple(map(int, x.split(":"))) for x in obs["recs"].split("/")]
+    if not doc:
+        return None
+    # after get_first_char: one unit, or two (CR + non-LF second unit)
+    T = 2 if (len(doc) > 1 and doc[0] == CR and doc[1] != LF) else 1
+    text_abs, tvoff = 0, 0
+    for k, (size, limit, nxt, text, tval, sm) in enumerate(recs):
+        # the consumer acted before this refill
+        R = T - text_abs
+        text_abs += R * a // 8
+        tvoff = min(bv, T - text_abs)
+        if not (0 <= text <= tval <= nxt <= limit <= size):
+            return "refill %d: offsets out of order: %r" % (k, (size, limit, nxt, text, tval))
+        if nxt - text != T - text_abs:
+            return "refill %d: the token text has %d units, the consumer kept %d" % (k, nxt - text, T - text_abs)
+        if tval - text != tvoff:
+            return "refill %d: tvalue_start - text_start = %d, was %d before the refill" % (k, tval - text, tvoff)
+        if T > len(norm) or ck(text_abs, T) != sm:
+            return "refill %d: the token text is not the part of the (normalised) document the consumer kept" % k
+        T += limit - nxt
+    if obs.get("eof") == "1" and T != len(norm):
+        return "the end of the input was reached after %d units, the normalised document has %d" % (T, len(norm))
+    if obs.get("eof") != "1":
+        return "the fill functions did not reach the end of the input"
+    return None
+
+
 def oracle(req_, impl):
     t = req_.split(" ")
     if len(t) < 4 or not impl.startswith("fl "):
         return None
     mode, doc = t[1], unhexs(t[2])
+    if mode.startswith("o"):
+        return oracle_offsets(int(mode[1]), int(mode[2]), doc, _kv(impl))
     if mode in "dkh":
         f = impl.split(" ")
         seen = unhexs(f[1])
@@ -317,7 +392,7 @@ def nontrivial(req_, impl):
 
 def classify(req_, impl):
     t = req_.split(" ")
-    mode = t[1] if len(t) > 1 else "?"
+    mode = t[1][:1] if len(t) > 1 else "?"
     units = re.findall("....", t[2]) if len(t) > 2 and t[2] != "-" else []
     has_cr = "000d" in units
     crlf = any(units[i] == "000d" and units[i + 1] == "000a" for i in range(len(units) - 1))
